@@ -7,9 +7,10 @@ TARGETS = {
 
 CHECKS = {
     "C13": dict(
+        promote=True,   # thorough bounds cost seconds: used for the quick tier as well
         level="model_checking",
         runs=[dict(name="heap", target="h_heap", args=[], quick=[], thorough=[])],
-        deadline=dict(quick=60, thorough=600),
+        deadline=dict(quick=150, thorough=600),
         bounds=dict(
             quick="heap: keys {0,1,2}, <=12 elements, ptrheap_create from every array of <=5 keys, all of add/getmin/deletemin/"
                   "delete(handle)/increase(handle)/decrease(handle)/increasemin/add-with-dead-allocator-then-retry from every state (with and without record-cookie "
